@@ -48,6 +48,8 @@ MANIFEST = {
 
 VARS = ["v1", "v2", "v3", "v4"]
 ARGS = [("a1", "int"), ("a2", "int")]
+IDX = "k1"      # only ever assigned ints; read as the index of `xs[k1] = 1` (a subscript assignment TARGET reads k1 and xs)
+ARR = ("xs", "array[int, 3]")  # extra borrowed parameter, never reassigned
 GLOBAL = "gl"   # a declared global function; may be shadowed by assignment
 UNDEF = "zz"    # never assigned, not global
 TYPES = {"int": "1", "float": "1.5", "bool": "True"}
@@ -99,8 +101,12 @@ def gen_block(rng, depth, in_loop, names, budget):
             names["nested"] += 1
             cap = rng.sample(names["readable"][:6], rng.randint(0, 2))
             out.append(("nested", f"h{names['nested']}", cap))
+        elif r < 0.985:
+            out.append(("seti", IDX))
         else:
             out.append(("use", rng.choice(names["readable"])))
+        if rng.random() < 0.06:
+            out.append(("asg", IDX, "int"))
     return out
 
 
@@ -117,7 +123,7 @@ def gen_program(rng):
     shadow = rng.random() < 0.25
     names = {
         "assignable": VARS + [a for a, _ in ARGS] + ([GLOBAL] if shadow else []),
-        "readable": VARS + [a for a, _ in ARGS] + [GLOBAL] + ([UNDEF] if rng.random() < 0.1 else []),
+        "readable": VARS + [a for a, _ in ARGS] + [GLOBAL] + ([UNDEF] if rng.random() < 0.1 else []) + [IDX],
         "nested": 0,
     }
     body = gen_block(rng, 0, False, names, [rng.randint(4, 14)])
@@ -127,6 +133,8 @@ def gen_program(rng):
     if rng.random() < 0.6:
         # prologue defining most locals, so that re-typing (not undefinedness) decides
         pro = [("asg", x, rng.choice(list(TYPES))) for x in VARS if rng.random() < 0.85]
+        if rng.random() < 0.8:
+            pro.append(("asg", IDX, "int"))
         body = pro + body
     return body
 
@@ -140,6 +148,8 @@ def show(body, ind=1):
             lines.append(f"{pad}{s[1]} = {TYPES[s[2]]}")
         elif k == "use":
             lines.append(f"{pad}{s[1]}")
+        elif k == "seti":
+            lines.append(f"{pad}{ARR[0]}[{s[1]}] = 1")
         elif k == "if":
             lines.append(f"{pad}if {show_cond(s[1])}:")
             lines += show(s[2], ind + 1) or [f"{pad}    pass"]
@@ -169,7 +179,7 @@ def show_cond(c):
 
 
 def source(body):
-    args = ", ".join(["c: bool"] + [f"{a}: {t}" for a, t in ARGS])
+    args = ", ".join(["c: bool"] + [f"{a}: {t}" for a, t in ARGS] + [f"{ARR[0]}: {ARR[1]}"])
     return f"@guppy\ndef f({args}) -> int:\n" + "\n".join(show(body) or ["    pass"]) + "\n    return 0\n"
 
 
@@ -431,7 +441,7 @@ def source_undefined(body):
     branch conditions are ignored, code after return/break/continue and behind constant conditions is
     still analysed (entered from the state at the jump / the condition), and merges from dead code into
     live code do not count."""
-    assigned = set(a for a, _ in ARGS)
+    assigned = set(a for a, _ in ARGS) | {ARR[0]}
 
     def collect(b):
         for st in b:
@@ -470,7 +480,7 @@ def source_undefined(body):
             k = st[0]
             if k == "asg":
                 s = _St(s.reach, s.defs | {st[1]})
-            elif k == "use":
+            elif k in ("use", "seti"):
                 use(st[1], s)
             elif k == "nested":
                 for x in st[2]:
@@ -510,7 +520,7 @@ def source_undefined(body):
                 s = _join([exit_in, *b2])
         return s
 
-    block(body, _St(True, {a for a, _ in ARGS} | {"c"}), [], [])
+    block(body, _St(True, {a for a, _ in ARGS} | {"c", ARR[0]}), [], [])
     return bad
 
 
@@ -572,7 +582,7 @@ def source_type_conflicts(body):
                 dead_flag[0] = True
             if k == "asg":
                 st = setty(st, stmt[1], stmt[2])
-            elif k == "use":
+            elif k in ("use", "seti"):
                 use(stmt[1], st)
             elif k == "nested":
                 for x in stmt[2]:
@@ -612,7 +622,7 @@ def source_type_conflicts(body):
                 st = join([exit_in, *b2])
         return st
 
-    init = S(True, {a: {t} for a, t in ARGS} | {"c": {"bool"}})
+    init = S(True, {a: {t} for a, t in ARGS} | {"c": {"bool"}, ARR[0]: {ARR[1]}})
     block(list(body), init, [], [])
     return conflicts, dead_flag[0]
 
